@@ -130,6 +130,25 @@ func (w *world) frontWait(th string, newChain bool) *clist.CElement {
 	return e
 }
 
+func (w *world) frontWaitChan(th string) *clist.CElement {
+	tc := w.tick()
+	for {
+		ch := w.l.WaitChan()
+		if w.free {
+			<-ch
+		} else {
+			vs.WaitClosed("waitCh", func() bool { return vs.IsClosed(ch) })
+		}
+		if e := w.l.Front(); e != nil {
+			tr := w.tick()
+			w.lock()
+			w.steps = append(w.steps, step{th, "FrontWait", -1, val(e), tc, tr, true})
+			w.unlock()
+			return e
+		}
+	}
+}
+
 func (w *world) nextWait(th string, from *clist.CElement) *clist.CElement {
 	tc := w.tick()
 	e := from.NextWait()
@@ -196,7 +215,12 @@ func (w *world) observe(th string) {
 // (which the scenario guarantees is pushed and never removed).
 func (w *world) traverse(th string, until int, useChan bool) {
 	for {
-		e := w.frontWait(th, true)
+		var e *clist.CElement
+		if useChan {
+			e = w.frontWaitChan(th)
+		} else {
+			e = w.frontWait(th, true)
+		}
 		for e != nil {
 			if val(e) == until {
 				return
@@ -284,6 +308,39 @@ var scenarios = []scenario{
 		})
 		spawn("O", func() { w.observe("O") })
 	}},
+}
+
+func init() {
+	// every scenario that waits through NextWait/FrontWait also runs in the WaitChan flavour the mempool
+	// reactor uses (select on NextWaitChan()/WaitChan(), then Next()/Front())
+	scenarios = append(scenarios,
+		scenario{"removeTail|nextWaitChanOnTail|push", 3, func(w *world, spawn func(string, func())) {
+			es := prefill(w, 2)
+			spawn("R", func() { w.remove("R", es[1]) })
+			spawn("T", func() { w.nextWaitChan("T", es[1]) })
+			spawn("P", func() { w.push("P", 2) })
+		}},
+		scenario{"removeOnly|frontWaitChan|push", 3, func(w *world, spawn func(string, func())) {
+			es := prefill(w, 1)
+			spawn("R", func() { w.remove("R", es[0]) })
+			spawn("T", func() { w.traverse("T", 1, true) })
+			spawn("P", func() { w.push("P", 1) })
+		}},
+		scenario{"removeAllThenPush|traverseChan", 2, func(w *world, spawn func(string, func())) {
+			es := prefill(w, 2)
+			spawn("W", func() { w.remove("W", es[1]); w.remove("W", es[0]); w.push("W", 2) })
+			spawn("T", func() { w.traverse("T", 2, true) })
+		}},
+		scenario{"removeTail+detach,push|traverseChanFromTail", 2, func(w *world, spawn func(string, func())) {
+			es := prefill(w, 2)
+			spawn("W", func() { w.remove("W", es[1]); es[1].DetachPrev(); es[1].DetachNext(); w.push("W", 2) })
+			spawn("T", func() {
+				if e := w.nextWaitChan("T", es[1]); e == nil {
+					w.traverse("T", 2, true)
+				}
+			})
+		}},
+	)
 }
 
 // ---- oracles ---------------------------------------------------------------------------------
